@@ -8,8 +8,9 @@ import time
 from tlcrun import VERIF
 
 KNOWN_FILE = os.path.join(VERIF, "known_findings.json")
-EVIDENCE_DIR = os.path.join(VERIF, "evidence")
-REPLAY_DIR = os.path.join(VERIF, "replays")
+# (the two directories can be redirected for evaluation runs against scratch copies of the repository)
+EVIDENCE_DIR = os.environ.get("VERIF_EVIDENCE_DIR", os.path.join(VERIF, "evidence"))
+REPLAY_DIR = os.environ.get("VERIF_REPLAY_DIR", os.path.join(VERIF, "replays"))
 
 
 def load_known():
